@@ -46,16 +46,15 @@ def main(only=None):
             rec['demo_with_change_tail'] = dm.stdout[-400:]
             dc = sh('cd /tmp && PYTHONPATH=/repo timeout 300 %s %s' % (PY, demo))
             rec['demo_without_change_exit'] = dc.returncode
-            sh('git -C /repo worktree remove --force %s' % wt)
-            shutil.rmtree(wt, ignore_errors=True)
             ok = ('450 passed' in rec['tests_with_change'] and '5 failed' in rec['tests_with_change'] and rec['demo_with_change_exit'] == 1
                   and rec['demo_without_change_exit'] == 0)
             rec['confirmed'] = ok
-            # our check
-            assert sh('git -C /repo diff --quiet').returncode == 0
-            sh('git -C /repo apply %s' % diff)
-            ck = sh('cd /verif && ./check %s --tier quick' % pid)
-            sh('git -C /repo checkout -- .')
+            # our check, against the scratch worktree that carries the change (VERIF_REPO): /repo itself stays untouched, so this can
+            # run while other checks are reading /repo
+            env = 'PYTHONHASHSEED=0 PYTHONDONTWRITEBYTECODE=1 LC_ALL=C.UTF-8 TZ=UTC PYTHONPATH=%s VERIF_REPO=%s' % (wt, wt)
+            ck = sh('cd /verif && %s /venv/bin/python harness/check.py %s --tier quick' % (env, pid))
+            sh('git -C /repo worktree remove --force %s' % wt)
+            shutil.rmtree(wt, ignore_errors=True)
             lines = [l for l in ck.stdout.split('\n') if l.startswith('VIOLATION')]
             rec['check_exit'] = ck.returncode
             rec['check_violation_lines'] = lines[:3]
@@ -80,7 +79,7 @@ def main(only=None):
                                          'repository test suite with the change: ' + rec['tests_with_change'],
                                          'PYTHONPATH=<tree with change> /venv/bin/python demo.py -> exit %d' % rec['demo_with_change_exit'],
                                          'PYTHONPATH=/repo /venv/bin/python demo.py -> exit %d' % rec['demo_without_change_exit'],
-                                         'git -C /repo apply patch.diff; ./check %s --tier quick; git -C /repo checkout -- .' % pid],
+                                         'scratch worktree with the change as VERIF_REPO; harness/check.py %s --tier quick' % pid],
                         'check_result': {'caught': rec['caught'], 'with_failing_input': rec['caught_with_failing_input'],
                                          'violation_lines': rec['check_violation_lines'], 'summary': rec['check_summary'],
                                          'tie_disagreements': rec.get('tie_disagreements'), 'oracle_failures': rec.get('oracle_failures')},
